@@ -19,7 +19,7 @@ fn gen(r: &mut Rng, _cfg: &RunCfg) -> Case {
         }
         3 => {
             // additivity over ESC-free strings
-            let m = Mix::swarm(r, &[Class::Ascii, Class::Wide, Class::Zero, Class::Punct, Class::Space, Class::Para, Class::Scalars]);
+            let m = Mix::swarm(r, &[Class::Ascii, Class::Wide, Class::Zero, Class::Punct, Class::Space, Class::Para, Class::Scalars, Class::Real, Class::Repeat]);
             let a = { let n = r.below(6); m.text(r, n) };
             let b = { let n = r.below(6); m.text(r, n) };
             Case::new("additive").text(a).text(b)
